@@ -107,14 +107,18 @@ def initial_tree(inputs, output, size, init):
 
 def initial_states(t0, labels, size):
     """the fresh tree, the tree with one index already sliced, and with one index already projected"""
+    import copy
+
+    # every initial state is its own object graph (deep copy): states must not be able to influence each other
+    # through members that a (possibly changed) tree.copy() shares
     out = [(t0, [])]
     if labels:
         ix = labels[0]
-        out.append((t0.remove_ind(ix), [dict(op="slice_ind", params={"ix": ix})]))
+        out.append((copy.deepcopy(t0).remove_ind(ix, inplace=True), [dict(op="slice_ind", params={"ix": ix, "inplace": True})]))
         big = [c for c in labels if size[c] > 1]
         if big:
             jx = big[-1]
-            out.append((t0.remove_ind(jx, project=size[jx] - 1), [dict(op="project_ind", params={"ix": jx, "value": size[jx] - 1})]))
+            out.append((copy.deepcopy(t0).remove_ind(jx, project=size[jx] - 1, inplace=True), [dict(op="project_ind", params={"ix": jx, "value": size[jx] - 1, "inplace": True})]))
     return out
 
 
@@ -265,7 +269,14 @@ def replay(v):
     for arrays in tries:
         tree = initial_tree(inputs, output, size, case["init"])
         try:
-            tree = history.replay_history(tree, hist, arrays=arrays)
+            def observe(t, arrays=arrays):
+                # the driver contracts a copy of every state it reaches
+                try:
+                    t.copy().contract(arrays)
+                except Exception:  # noqa -- judged below, on the final tree
+                    pass
+
+            tree = history.replay_history(tree, hist, arrays=arrays, observe=observe)
         except Exception as e:  # noqa
             if v["label"].startswith("transformation raised"):
                 return True, f"history {[h['op'] for h in hist]} raised {e!r}"
